@@ -223,6 +223,11 @@ func (p *eparser) unary() Expr {
 		o := p.next().v
 		return &EUnary{o, p.unary()}
 	}
+	if p.isOp("*") {
+		// `*T` (a pointer type name in isType/dyn) or `*p` (the object behind a pointer)
+		p.next()
+		return &EUnary{"*", p.unary()}
+	}
 	return p.postfix(p.primary())
 }
 
